@@ -105,3 +105,46 @@ fn c11_witness_must_fail() {
     let _ = Ix::compare_scored_docs(&a, &b);
     assert!(false, "reachability witness");
 }
+
+// Score formula (source slice): "results are ordered by finite, non-negative scores" -------------------
+// The Okapi BM25 formula is inline in BM25Index::score_term, which needs an index instance (DashMap /
+// FxHashMap: out of reach). ./check extracts the `idf` and `tf_component` statements textually from
+// the current bm25.rs on every run (the trailing `.ln()` of idf stripped, so the claim is about ln's
+// argument: >= 1 and finite => the logarithm is finite and >= 0).
+include!("/verif/slices/bm25_score.rs");
+
+// @check id=C11 tier=quick cap=600 needs=slice_bm25 role=score_formula_idf
+// @fns BM25Index::score_term (inline idf expression, sliced)
+// @bound document count N and document frequency df as f32 of integers with 1 <= df <= N <= 2^24 (exactly representable)
+// @assume the sliced statements are the ones score_term executes (extracted textually, anchored on the binding names); ln is monotone with ln(1) = 0
+#[kani::proof]
+fn c11_idf_argument_is_at_least_one_and_finite() {
+    let (n, d): (u32, u32) = (kani::any(), kani::any());
+    kani::assume(d >= 1 && d <= n && n <= (1 << 24));
+    let arg = slice_bm25_idf_arg(n as f32, d as f32);
+    assert!(arg.is_finite() && arg >= 1.0, "the idf logarithm's argument is finite and >= 1, so idf is finite and non-negative");
+    assert!(arg <= 33554434.0, "and bounded by 2N + 2, so idf <= ln(2^25 + 2) < 18");
+    kani::cover!(d == n, "term in every document");
+    kani::cover!(d == 1 && n == (1 << 24), "rarest term in the largest corpus");
+}
+
+// @check id=C11 tier=quick cap=600 needs=slice_bm25 role=score_formula_tf
+// @fns BM25Index::score_term (inline tf_component expression, sliced), BM25Params::sanitized
+// @bound term frequency 1..2^24, document length 0..2^24 (integers as f32), average length any finite f32 >= 1 (score_term clamps it), k1 / b any f32 passed through the real sanitized()
+#[kani::proof]
+fn c11_tf_component_is_finite_and_non_negative() {
+    let (tf, dl): (u32, u32) = (kani::any(), kani::any());
+    kani::assume(tf >= 1 && tf <= (1 << 24) && dl <= (1 << 24));
+    let avg: f32 = kani::any();
+    kani::assume(avg.is_finite() && avg >= 1.0);
+    let p = BM25Params { k1: kani::any(), b: kani::any() };
+    let (k1, b) = p.sanitized();
+    let c = slice_bm25_tf_component(tf as f32, dl as f32, avg, k1, b);
+    assert!(c.is_finite() && c >= 0.0, "the term-frequency component is finite and non-negative for any parameters a query can carry");
+    // (an upper bound "c <= k1 + 1" was tried: exactly k1 + 1 is exceeded by an ulp through rounding - a
+    // false alarm of the oracle, corrected - and the relaxed bound did not finish in 300 s; the property
+    // asks for finite and non-negative only)
+    kani::cover!(k1 == 0.0, "k1 = 0: pure presence");
+    kani::cover!(b == 1.0 && dl > 1000, "full length normalisation on a long document");
+    kani::cover!(p.k1.is_nan(), "NaN parameter sanitized first");
+}
